@@ -140,4 +140,35 @@ def BNet.Quiescent {V α : Type} (b : BNet V α) : Prop :=
   ∀ j, j < b.n → b.upWire j = [] ∧ b.downWire j = [] ∧ (b.busRx j).buffer = [] ∧ (b.cliRx j).buffer = [] ∧
     (b.cl j).exec = []
 
+/-! ### the canonical draining schedule (byte-level progress)
+
+`drain`: as long as something is in flight, take the first client `j` (in index order) that has something pending and
+(1) let the bus read EVERYTHING queued on `j`'s link to it, else (2) let `j` read everything the bus queued for it (every
+invocation this leads to returns a Deferred), else (3) fire `j`'s oldest Deferred with the result `fire j e`.  The
+schedule is a function of the state, so the domain hypothesis of the progress theorem can be checked by evaluation. -/
+
+/-- the next draining step concerning client `j` (`none`: nothing of `j`'s is in flight) -/
+def BNet.pickAt {V α : Type} (fire : Nat → Exec → Result V) (b : BNet V α) (j : Nat) : Option (BStep V) :=
+  if !(b.upWire j).isEmpty || !(b.busRx j).buffer.isEmpty then some (.readBus j (b.upWire j).length)
+  else if !(b.downWire j).isEmpty || !(b.cliRx j).buffer.isEmpty then some (.readClient j (b.downWire j).length [])
+  else match (b.cl j).exec with
+    | e :: _ => some (.resolve j e.tok (fire j e))
+    | [] => none
+
+/-- the next draining step among clients `0 .. k-1`, lowest index first -/
+def BNet.pick {V α : Type} (fire : Nat → Exec → Result V) (b : BNet V α) : Nat → Option (BStep V)
+  | 0 => none
+  | k + 1 => match b.pick fire k with
+    | some st => some st
+    | none => b.pickAt fire k
+
+/-- at most `fuel` draining steps from `b` (stops as soon as nothing is in flight) -/
+def drain {V α : Type} (C : WireCodec V) (A : Auth α) (w : World V) (fire : Nat → Exec → Result V) :
+    Nat → BNet V α → List (BStep V)
+  | 0, _ => []
+  | fuel + 1, b =>
+    match b.pick fire b.n with
+    | none => []
+    | some st => st :: drain C A w fire fuel (bstep C A w b st)
+
 end Txdbus.Net
